@@ -285,7 +285,7 @@ def run(facts, res):
                             if l.get("name") == x[2] and contains_call(du_of(gc).local_term(i, 12), "get_winner"):
                                 ok = True
         rt = du_of(gc).local_term(0, 30)
-        names = [callee_name(x) for x in walk(rt) if x[0] == "call"]
+        names = [callee_name(x) for x in walk(rt, False) if x[0] == "call"]
         chain_ok = "get_leafs" in names and names.count("filter") == 1 and not (set(names) & {"take", "skip", "step_by"})
         wdef = ok
         res.instance("W4", "get_conflicting = get_leafs().filter(|r| winner != r): filter is `ne(winner, r)`: %s, single filter over the whole leaf set: %s, w = get_winner(): %s" % (ok, chain_ok, wdef), gc.loc())
@@ -361,11 +361,43 @@ def check_validate(v, facts, res):
             res.violation("W2", "%s|best-update-rule" % v.path, "%s replaces the running best on an edge that is not `best is None || candidate > best`" % v.path, v.loc(line))
     # the candidates are all keys; parent set from all values
     loops = [x for bi, t in v.calls() if t.callee is not None and t.callee.name == "next" for x in [du.operand_term(t.args[0], 20)]]
-    whole = any(contains_call(x, "keys") and any(y[0] == "field" and y[2] == "revisions" for y in walk(x)) and
-                not (set(callee_name(c) for c in walk(x) if c[0] == "call") & {"take", "skip", "filter", "step_by"}) for x in loops)
+    from ..common import iter_chain
+
+    def only_liveness_filters(x):
+        """a `filter` in the chain is accepted when it states nothing but the liveness tests the rule requires anyway"""
+        from ..conds import closure_result_lits
+        for c in iter_chain(x):
+            if c[0] == "call" and callee_name(c) == "filter":
+                cls_ = [_top_closure(c[2][1])] if len(c[2]) > 1 and _top_closure(c[2][1]) is not None else []
+                if not cls_:
+                    return False
+                for y in cls_:
+                    cb_ = facts.body(y[1])
+                    ls_ = closure_result_lits(cb_, facts, True) if cb_ is not None else []
+                    if not ls_ or not all(l.kind == "call" and callee_name(l.term) in ("is_resolved", "contains") and l.truth is False for l in ls_):
+                        return False
+        return True
+    whole = any(any(callee_name(c) == "keys" and c[2] and any(y[0] == "field" and y[2] == "revisions" for y in walk(c[2][0])) for c in iter_chain(x)) and
+                not (set(callee_name(c) for c in iter_chain(x)) & {"take", "skip", "step_by", "filter_map", "take_while", "skip_while"}) and
+                only_liveness_filters(x) for x in loops)
     res.instance("W1", "%s iterates every recorded revision: %s" % (v.path, whole), v.loc())
     if not whole:
         res.violation("W1", "%s|not-all-revisions" % v.path, "%s does not iterate over all keys of the revision map" % v.path, v.loc())
+
+
+def _top_closure(t):
+    hops = 0
+    while hops < 20 and isinstance(t, tuple) and t:
+        hops += 1
+        if t[0] == "closure":
+            return t
+        if t[0] in ("ref", "deref", "cast"):
+            t = t[1]
+        elif t[0] == "var":
+            t = t[3]
+        else:
+            return None
+    return None
 
 
 def _is_candidate(t):
@@ -374,7 +406,7 @@ def _is_candidate(t):
 
 def _parents_set(t, v, facts):
     """the set tested is collect(filter_map(values(self.revisions), |e| e.get_parent()))"""
-    names = [callee_name(x) for x in walk(t) if x[0] == "call"]
+    names = [callee_name(x) for x in walk(t, False) if x[0] == "call"]
     if not ("collect" in names and "values" in names and any(x[0] == "field" and x[2] == "revisions" for x in walk(t))):
         return False
     if set(names) & {"take", "skip", "filter", "step_by"}:
